@@ -734,6 +734,12 @@ def broadcast_arrays(*xs):
 
 def _uf1(name):
     def f(x):
+        if hasattr(x, "_symq_value") and not isinstance(x, SymArray):
+            # numpy ufunc on a Quantity: sqrt keeps a (square-rooted) unit, the others need a dimensionless argument
+            if name == "SQRT":
+                return x.__class__(f(x.value), x.unit ** 0.5)
+            return f(x.to_value(type(x.unit)(1, {}, "")))
+
         def cell(c):
             if is_sym(c):
                 return core.uf(name, c)
